@@ -24,4 +24,74 @@ def _nt(g, desc):
     return bool(regions(g))
 
 
-check, harness, jobs, replay = make(_oracle, stages=(0, 1, 2, 3), nontrivial=_nt)
+check, harness, _jobs, _replay = make(_oracle, stages=(0, 1, 2, 3), nontrivial=_nt)
+
+
+# hand-built flat graphs with doubled arcs, self loops and external targets ("all graphs": what from_dict / from_yaml and a
+# user's own constructor calls can produce); iteration needs the unique head, so graphs whose blocks are all reachable
+# from one predecessor-free block
+
+
+def check_flat(desc):
+    from numba_scfg.core.datastructures.scfg import SCFG
+    from numba_scfg.core.datastructures.basic_block import BasicBlock
+
+    g = SCFG({n: BasicBlock(n, tuple(t)) for n, t in zip(desc["names"], desc["targets"])})
+    fails, seen = [], set()
+    for err in check_iter(g):
+        sg = "flat:" + ":".join(str(x) for x in err[:2] if isinstance(x, str))
+        if sg not in seen:
+            seen.add(sg)
+            fails.append({"kind": "structure", "signature": sg, "detail": repr(err)[:300]})
+    return fails
+
+
+def flat_harness(E, ctx, aux):
+    from vf.spaces import realise_s4
+
+    desc = realise_s4(E, aux)
+    desc["kind"] = "flat-digraph"
+    ctx.current = desc
+    names, tg = desc["names"], desc["targets"]
+    preds = {n: 0 for n in names}
+    for n, t in zip(names, tg):
+        for x in t:
+            if x in preds and x != n or (x == n):
+                preds[x] = preds.get(x, 0) + 1
+    heads = [n for n in names if preds[n] == 0]
+    if len(heads) != 1:
+        ctx.feature("flat:no-unique-head (outside the domain of iteration)")
+        return
+    reach, st = {heads[0]}, [heads[0]]
+    while st:
+        x = st.pop()
+        for y in tg[names.index(x)]:
+            if y in preds and y not in reach:
+                reach.add(y)
+                st.append(y)
+    if len(reach) != len(names):
+        ctx.feature("flat:unreachable-blocks (outside the domain of iteration)")
+        return
+    ctx.evaluations += 1
+    ctx.nontrivial += 1
+    if any(len(set(t)) < len(t) for t in tg):
+        ctx.feature("flat:doubled-arc")
+    for f in check_flat(desc):
+        ctx.fail(f["kind"], f["signature"], desc, f["detail"])
+
+
+def jobs(tier):
+    from vf.runner import Job
+    from vf.spaces import s4_space
+
+    js = _jobs(tier)
+    js.insert(2, Job("flat-digraphs-N3-K3-doubled-arcs-self-loops", lambda: s4_space(3, 3, 5 if tier == "quick" else None), flat_harness,
+                     bounds={"space": "S4 digraphs with a unique head from which every block is reachable", "blocks": 3, "slots": 3,
+                             "max_edges": 5 if tier == "quick" else None}, budget_s=600))
+    return js
+
+
+def replay(desc):
+    if desc.get("kind") == "flat-digraph":
+        return check_flat(desc)
+    return _replay(desc)
